@@ -1,6 +1,5 @@
 //! Shared helpers: decision-log parser, small combinatorial enumerators, panic capture.
 
-use std::collections::BTreeSet;
 
 /// Remove ANSI colour escapes (the simulator colours its log when attached to a terminal).
 pub fn strip_ansi(s: &str) -> String {
@@ -349,10 +348,6 @@ pub fn subsets<T: Clone>(items: &[T], allow_empty: bool) -> Vec<(Vec<T>, Vec<T>)
     out
 }
 
-pub fn as_set<T: Ord + Clone>(v: &[T]) -> BTreeSet<T> {
-    v.iter().cloned().collect()
-}
-
 /// Run `f`, turning a panic into `Err(message)`; works both inside and outside bolero's own
 /// panic capture.
 pub fn catch<T>(f: impl FnOnce() -> T) -> Result<T, String> {
@@ -370,7 +365,49 @@ pub fn catch<T>(f: impl FnOnce() -> T) -> Result<T, String> {
     })
 }
 
-/// Silence the default panic printer for panics that the harness catches and judges itself.
-pub fn quiet_panics() {
-    vcommon::install_quiet_panic_hook();
+static LAST_PANIC_LOCATION: std::sync::Mutex<String> = std::sync::Mutex::new(String::new());
+
+/// Silence the default panic printer for panics that the harness catches and judges itself, and
+/// remember where the most recent panic was raised (reported in violations).
+pub fn install_panic_hooks() {
+    static ONCE: std::sync::Once = std::sync::Once::new();
+    ONCE.call_once(|| {
+        vcommon::install_quiet_panic_hook();
+        let prev = std::panic::take_hook();
+        std::panic::set_hook(Box::new(move |info| {
+            if let Some(l) = info.location() {
+                // keep the path short and independent of where the repository is checked out
+                let file = l.file();
+                let short = file.rfind("/hydro_lang/").or_else(|| file.rfind("/dfir_rs/")).map(|i| &file[i + 1..]).unwrap_or(file);
+                if let Ok(mut g) = LAST_PANIC_LOCATION.lock() {
+                    *g = format!("{short}:{}", l.line());
+                }
+            }
+            prev(info);
+        }));
+    });
+}
+
+pub fn last_panic_location() -> String {
+    LAST_PANIC_LOCATION.lock().map(|g| g.clone()).unwrap_or_default()
+}
+
+/// Fingerprint of the repository under test (commit + uncommitted changes of the crates the
+/// simulator is built from). The simulator compiles its per-flow dylibs against the repository
+/// *while the monitor runs*; if another process changes the repository in that window, the test
+/// binary and the dylibs disagree about hydro_lang and nothing observed is meaningful.
+pub fn repo_fingerprint() -> String {
+    let repo = std::env::var("VERIF_REPO").ok().filter(|s| !s.is_empty()).unwrap_or_else(|| "/repo".to_owned());
+    let run = |args: &[&str]| -> String {
+        std::process::Command::new("git")
+            .arg("-C")
+            .arg(&repo)
+            .args(args)
+            .output()
+            .map(|o| String::from_utf8_lossy(&o.stdout).into_owned())
+            .unwrap_or_default()
+    };
+    let head = run(&["rev-parse", "HEAD"]);
+    let dirty = run(&["diff", "HEAD", "--", "hydro_lang", "dfir_rs", "dfir_lang", "hydro_std"]);
+    format!("{}:{:x}", head.trim(), vcommon::hash_of(&dirty))
 }
